@@ -30,9 +30,10 @@ pub open spec fn helper_fits(h: Option<Seq<Tok>>, ft: Seq<char>, q: Seq<GraphqlT
     (h == Some(a_deser_id()) ==> full(ft, q) == Ty::Named(ft))
     && (h == Some(a_deser_option_id()) ==> full(ft, q) == Ty::Opt(Box::new(Ty::Named(ft))))
 }
-// A-serde: a field with `deserialize_with` and no `default` rejects a missing key.  The field template has no slot
-// that emits #[serde(default)] (obligation C16.6.template), so a helper on a nullable position rejects an absent key.
-pub open spec fn template_emits_default() -> bool { false }
+// A-serde: a field with `deserialize_with` and no `default` rejects a missing key: the nullable-ID attribute must say `default`
+pub open spec fn says_default(a: Seq<Tok>) -> bool {
+    a.len() == 2 && (a[1] matches Tok::G(VxDelim::Paren, inner) && inner.len() > 0 && inner[0] == Tok::T(tok!("default")))
+}
 // the helper the *code* picks today, tied to the code by the neutral obligation render.deser_model
 pub open spec fn code_deser(ft: Seq<char>, q: Seq<GraphqlTypeQualifier>) -> Option<Seq<Tok>> {
     if is_id_type(ft) { if q.contains(GraphqlTypeQualifier::Required) { Some(a_deser_id()) } else { Some(a_deser_option_id()) } } else { None }
